@@ -25,6 +25,91 @@ MSGS = ["", "m", "\u20acuro \u4e2d\u6587 √º \U0001F680", "Internal Error", "caf√
 OTHER_EXC = ("ValueError", "KeyError", "RuntimeError", "ZeroDivisionError", "Custom", "FeatureRequestError",
              "AttributeError")
 I32 = (-2 ** 31, 2 ** 31 - 1)
+
+
+def _hook_payloads():
+    """`data` values a handler's exception can carry that are JSON on the wire only through the protocol's
+    serialisation hook (attrs / lsprotocol objects, enum members, objects with a __dict__), alone and nested
+    inside dicts and lists: (factory, the JSON value S expects in the `data` member).  The expected JSON is
+    written down here (camelCase names, enum values) and cross-checked against lsprotocol's own converter -
+    not pygls' - in hook_wire()."""
+    from lsprotocol import types as T
+    import types as _t
+    pos = lambda: T.Position(line=3, character=7)
+    rng_ = lambda: T.Range(start=T.Position(line=1, character=2), end=T.Position(line=3, character=4))
+    jr = {"start": {"line": 1, "character": 2}, "end": {"line": 3, "character": 4}}
+    return [
+        (pos, {"line": 3, "character": 7}),
+        (rng_, jr),
+        (lambda: T.Diagnostic(range=rng_(), message="d√©", severity=T.DiagnosticSeverity.Warning, source="c07"),
+         {"range": jr, "message": "d√©", "severity": 2, "source": "c07"}),
+        (lambda: T.Location(uri="file:///c07.txt", range=rng_()), {"uri": "file:///c07.txt", "range": jr}),
+        (lambda: T.VersionedTextDocumentIdentifier(uri="file:///v", version=4), {"uri": "file:///v", "version": 4}),
+        (lambda: T.TextEdit(range=rng_(), new_text="n\u20ac"), {"range": jr, "newText": "n\u20ac"}),
+        (lambda: T.MessageType.Warning, 2),                       # IntEnum member
+        (lambda: T.MarkupKind.Markdown, "markdown"),              # str-Enum member
+        (lambda: T.PositionEncodingKind.Utf8, "utf-8"),
+        (lambda: {"at": pos()}, {"at": {"line": 3, "character": 7}}),
+        (lambda: [pos(), rng_()], [{"line": 3, "character": 7}, jr]),
+        (lambda: {"kind": T.MessageType.Error, "plain": [1, 2]}, {"kind": 1, "plain": [1, 2]}),
+        (lambda: {"k": T.MarkupKind.PlainText, "n": None}, {"k": "plaintext", "n": None}),
+        (lambda: {"a": {"b": [1, {"c": pos()}, [T.DiagnosticSeverity.Hint]]}, "d": "√©"},
+         {"a": {"b": [1, {"c": {"line": 3, "character": 7}}, [4]]}, "d": "√©"}),
+        (lambda: [[], [{}], [[rng_()]], "x", None], [[], [{}], [[jr]], "x", None]),
+        (lambda: {"items": [T.Location(uri="u", range=rng_()), {"plain": True}], "count": 2},
+         {"items": [{"uri": "u", "range": jr}, {"plain": True}], "count": 2}),
+        (lambda: _t.SimpleNamespace(where="here", n=1), {"where": "here", "n": 1}),   # the hook's __dict__ arm
+        (lambda: {"obj": _t.SimpleNamespace(p=pos())}, {"obj": {"p": {"line": 3, "character": 7}}}),
+    ]
+
+
+_HOOK = None
+def hook_wire():
+    """[(factory, expected JSON)], checked once against lsprotocol's converter (an independent unstructure)."""
+    global _HOOK
+    if _HOOK is None:
+        import enum
+        from lsprotocol import converters
+        conv = converters.get_converter()
+        def un(v):
+            if isinstance(v, dict):
+                return {k: un(x) for k, x in v.items()}
+            if isinstance(v, (list, tuple)):
+                return [un(x) for x in v]
+            if hasattr(v, "__attrs_attrs__"):
+                return conv.unstructure(v)
+            if isinstance(v, enum.Enum):
+                return v.value
+            if hasattr(v, "__dict__"):
+                return un(vars(v))
+            return v
+        hp = _hook_payloads()
+        seen = [json.dumps(p, sort_keys=True) for p in PAYLOADS]
+        for f, want in hp:
+            got = json.dumps(un(f()), sort_keys=True)
+            if got != json.dumps(want, sort_keys=True):
+                raise RuntimeError(f"C07 harness: expected wire form {want!r} differs from the converter's {got}")
+            if got in seen:
+                raise RuntimeError(f"C07 harness: payload wire form {got} is not distinct")
+            seen.append(got)
+        _HOOK = hp
+    return _HOOK
+
+
+def n_payloads():
+    return len(PAYLOADS) + len(hook_wire())
+
+
+def payload_value(i):
+    """The value a handler puts in `data` for payload index i (a fresh object for the hook-only ones)."""
+    return PAYLOADS[i] if i < len(PAYLOADS) else hook_wire()[i - len(PAYLOADS)][0]()
+
+
+def payload_wire(i):
+    """The JSON value of the `data` member S expects on the wire for payload index i."""
+    return PAYLOADS[i] if i < len(PAYLOADS) else hook_wire()[i - len(PAYLOADS)][1]
+
+
 # `params` of a request as a dimension of every server-side case ("absent" = no member at all).  For a method
 # without a registered type every one of these structures (POk): the answer must not depend on them.
 PSHAPES = ["absent", None, [], {}, {"a": 1, "b": "x"}, {"class": 1}, {"from": "x", "import": 2, "ok": 3},
@@ -408,6 +493,29 @@ class C07(core.Property):
                 srv(method=meth, p="badv", shape=shape, target=["feature", "sync"])
         for meth in ("c07/sync", "zz/unknown"):
             srv(method=meth, p="bado", target=["feature", "sync"] if meth == "c07/sync" else ["unknown"])
+        # --- `data` that is JSON only through the protocol's serialisation hook (attrs / lsprotocol objects,
+        # enum members, objects with a __dict__; alone and nested in dicts / lists): every such shape from
+        # every handler kind, the class / code / message rotating over the table; S: code, message unchanged,
+        # `data` = the converter's unstructured form
+        nplain, nall = len(PAYLOADS), n_payloads()
+        k = 0
+        for via in ("feature", "command"):
+            for kind in KINDS:
+                for j in range(nplain, nall):
+                    k += 1
+                    o = rpc_outcome(rows[k % len(rows)], (1, 2, 3)[k % 3])
+                    srv(target=[via, kind], outcome=o[:4] + [j])
+        for _ in range(chk.n(20, 400)):
+            o = rpc_outcome(rng.choice(rows), 2)
+            srv(target=[rng.choice(("feature", "command")), rng.choice(KINDS)],
+                outcome=o[:4] + [rng.randrange(nplain, nall)])
+        msgs = []
+        for j in range(nplain, nall):          # ... and one after the other on one connection
+            n += 1
+            m = piece("P", n)
+            m["outcome"] = m["outcome"][:4] + [j]
+            msgs.append(m)
+        cases.append({"k": "session", "msgs": msgs})
         return cases
 
     # ------------------------------------------------------------------ implementation
@@ -786,7 +894,8 @@ def jeq(a, b):
 
 def data_index(d):
     d = plain(d)
-    for i, p in enumerate(PAYLOADS):
+    for i in range(n_payloads()):
+        p = payload_wire(i)
         try:
             if jeq(d, p):
                 return i
@@ -1162,9 +1271,9 @@ class Env:
         if o[0] == "rpc":
             cls = self.cls(o[1])
             msg = None if o[2] is None else "".join(map(chr, o[2]))
-            code, payload = o[3], PAYLOADS[o[4]]
+            code, pi = o[3], o[4]
             def r():
-                raise cls(message=msg, code=code, data=payload)
+                raise cls(message=msg, code=code, data=payload_value(pi))
             return r
         text = "".join(map(chr, o[2]))
         if o[1] == "ctor":
